@@ -121,7 +121,8 @@ def check_state(rec, B, tg, tp, r, subsets, rng, dense=True, extras=True):
         # a qubit named twice is still one qubit; indices may count from the end (numpy / torch index semantics, both packages)
         dup = A + [A[int(rng.integers(len(A)))] for _ in range(max(1, N - len(A)))]
         forms += [("repeated", dup), ("repeated.perm", [dup[i] for i in rng.permutation(len(dup))]),
-                  ("negative", [a - N for a in A]), ("mixed.sign", [a - N if k % 2 else a for k, a in enumerate(A)])]
+                  ("negative", [a - N for a in A]), ("mixed.sign", [a - N if k % 2 else a for k, a in enumerate(A)]),
+                  ("ndarray", np.array([a - N if k % 2 == 0 else a for k, a in enumerate(A)]))]
         if N > 300:
             forms = forms[1:4:2]
         elif B.name == "np":
